@@ -250,6 +250,7 @@ type stats struct {
 	leakRuns, settleFail                               int64
 	endsClosedEarly                                    int64
 	filterDelayed                                      int64
+	nilItems, bufCells                                 int64
 }
 
 // judge evaluates one execution. It reports violations through rep and returns
@@ -265,6 +266,25 @@ func judge(t *tree, out *runOut, rep *mon.Reporter) (st stats, order string) {
 			rep.Violation("C08/panic/build/"+panicSig(out.buildPan), "panic while building the operator tree: "+out.buildPan.Value+"\n"+out.buildPan.Stack, w)
 		}
 		return
+	}
+	// the caller's slices (array sources are windows of them) hold exactly what the caller put there
+	st.bufCells = 0
+	for _, b := range t.Bufs {
+		st.bufCells += int64(b.Len)
+	}
+	if len(out.bufDiffs) > 0 {
+		kinds := map[string][]string{}
+		for _, d := range out.bufDiffs {
+			k := "spare-capacity"
+			if d.Owner >= 0 {
+				k = "window-of-another-reader"
+			}
+			kinds[k] = append(kinds[k], fmt.Sprintf("buffer %d cell %d (array source %d): was %v, is now %v", d.Buf, d.Cell, d.Owner, d.Want, d.Got))
+		}
+		for _, k := range mon.SortedKeys(kinds) {
+			rep.Violation("C08/array/caller-slice-overwritten/"+k,
+				fmt.Sprintf("the slice handed to StreamReaderFromArray (a window buf[off:off+len] of a caller-owned buffer) was written to by the stream operators; the readers over that memory no longer deliver the sequence that was put there: %s", strings.Join(kinds[k], "; ")), w)
+		}
 	}
 	switch out.wait {
 	case mon.Stuck:
@@ -322,9 +342,27 @@ func judge(t *tree, out *runOut, rep *mon.Reporter) (st stats, order string) {
 		if lg.pan != nil {
 			continue
 		}
+		for _, o := range obs {
+			if o.K == eVal && nilish(o.Dyn) {
+				st.nilItems++
+			}
+		}
 		if class, text := matchObs(rm.strands, obs, lg.sawEOF); class != "" {
-			rep.Violation("C08/seq/"+class+"/"+typNames[rm.typ],
-				fmt.Sprintf("end %d (reader %d, %s reader, %d source strands): %s\nforeign error items seen by this end: %q", i, t.Ends[i].Reader, typNames[rm.typ], len(rm.strands), text, lg.foreign), w)
+			// input class: a reader whose chunks are interface values; a converter on the way that
+			// is handed a nil interface value
+			sfx := ""
+			if rm.et.iface() {
+				sfx = "/interface-elem"
+			}
+			if class == "foreign-error" {
+				for _, s := range rm.strands {
+					if s.NilIn && !s.Pan {
+						sfx = "/nil-interface-chunk-into-converter"
+					}
+				}
+			}
+			rep.Violation("C08/seq/"+class+"/"+typNames[rm.typ]+sfx,
+				fmt.Sprintf("end %d (reader %d, %s reader of StreamReader[%s], %d source strands): %s\nforeign error items seen by this end: %q", i, t.Ends[i].Reader, typNames[rm.typ], etNames[rm.et], len(rm.strands), text, lg.foreign), w)
 		}
 	}
 
@@ -473,20 +511,31 @@ func judge(t *tree, out *runOut, rep *mon.Reporter) (st stats, order string) {
 				// Sends absorbed by a forwarder whose converter dropped the item (no send attempt,
 				// so the forwarder never looked at the closed signal) are told apart: if they
 				// explain the excess, it is the filtering-forwarder defect, else a plain bound violation.
-				dropped := 0
+				// Two shapes are told apart: "deep" = the drop happens where the forwarder cannot see
+				// the closed signal at all (inside the recv loop of a converter below the forwarded
+				// converter, below a forwarded Copy child, or below a merge read by another
+				// forwarder); "shallow" = the dropping converter is itself the input of the merge.
+				deep, shallow := 0, 0
 				for i, r := range lg.sends {
-					if r.T0 > T && !r.Closed && m.fdrop[s.ID][int32(i)] {
-						dropped++
+					if r.T0 > T && !r.Closed {
+						if m.fdrop[s.ID][int32(i)] {
+							deep++
+						} else if m.sdrop[s.ID][int32(i)] {
+							shallow++
+						}
 					}
 				}
 				sig := "C08/close/not-told-within-bound/" + kind
-				if F > 0 && accepted-dropped <= allowed {
+				if F > 0 && accepted-deep <= allowed {
 					sig = "C08/close/not-told-while-converter-drops-items/forwarded"
+					st.filterDelayed++
+				} else if F > 0 && accepted-deep-shallow <= allowed {
+					sig = "C08/close/not-told-while-converter-drops-items/forwarded/converter-directly-below-merge"
 					st.filterDelayed++
 				}
 				rep.Violation(sig,
-					fmt.Sprintf("writer of source %d (cap %d, %d forwarder goroutine(s) downstream): the Close of the last of its %d derived readers returned at logical time %d; of the %d Send calls started after that, %d were still accepted (allowed: %d = cap + 6 per forwarder; %d of the accepted items are dropped as no-value by a converter below a forwarder). sends=%v",
-						s.ID, s.Cap, F, len(ends), T, after, accepted, allowed, dropped, lg.sends), w)
+					fmt.Sprintf("writer of source %d (cap %d, %d forwarder goroutine(s) downstream): the Close of the last of its %d derived readers returned at logical time %d; of the %d Send calls started after that, %d were still accepted (allowed: %d = cap + 6 per forwarder; of the accepted items %d are dropped as no-value by a converter deep below a forwarder and %d by a converter that is directly the input of a merge). sends=%v",
+						s.ID, s.Cap, F, len(ends), T, after, accepted, allowed, deep, shallow, lg.sends), w)
 			}
 		}
 		if !m.canPanic[s.ID] {
